@@ -47,7 +47,18 @@ const FAMILIES: &[&str] = &["rfail", "rfail", "rfail", "wfail", "wfail", "wfail"
 
 fn gen(seed: u64, idx: u64, _t: Tier) -> J {
 	let mut r = Rng::derive(seed, "C12", idx);
-	let (f, mut stream) = corpus_stream(&mut r, 6);
+	let (mut f, mut stream) = corpus_stream(&mut r, 6);
+	if idx % 8 == 3 {
+		// YAML in UTF-16/32 (with characters outside the BMP, i.e. surrogate pairs in UTF-16).
+		let mut cfg = crate::gen::GenCfg::common();
+		cfg.max_depth = 2;
+		let (s, _) = gen::gen_stream(&mut r, crate::scenario::Fmt::Yaml, 2, &cfg, false);
+		let mut text = String::from_utf8_lossy(&s.bytes).into_owned();
+		text.push_str("---\nastral: \"\u{1F600}x\u{10348}\"\n");
+		let enc = r.usize_below(4);
+		stream.bytes = super::c02::encode_utf(&text, enc, r.chance(1, 2));
+		f = crate::scenario::Fmt::Yaml;
+	}
 	if idx % 10 == 9 && f != crate::scenario::Fmt::Toml {
 		// A larger input: several buffer refills (8 KiB BufReader, 16 KiB libyaml) lie inside it.
 		let unit = stream.bytes.clone();
